@@ -47,6 +47,16 @@ static Var build(const Toks& t, size_t& i)
 		for (long long k = 0; k < n; k++) a << x;
 		return a;
 	}
+	if (tag == 'N' || tag == 'O') {
+		long long n = num(arg);
+		Var x = build(t, i);
+		for (long long k = 0; k < n; k++) {
+			Var w(tag == 'N' ? Var::ARRAY : Var::OBJ);
+			if (tag == 'N') w << x; else w["k"] = x;
+			x = w;
+		}
+		return x;
+	}
 	if (tag == 'a') {
 		long long n = num(arg);
 		Var a(Var::ARRAY);
